@@ -1,6 +1,6 @@
 //! Byte-level suite: from_bytes / validate on generated inputs (families V, P, X, H, R, E).
 //! One line per case: `B <tid> <place> <addr16> <P0|P1> <sfx|-> <hex> => <observed>`
-use crate::{arena::*, err_str, guarded, hex, shape::*, Rng, TypeOps, D};
+use crate::{arena::*, err_str, guarded, hex, shape::*, Rng, TypeOps};
 use flatty::error::ErrorKind;
 use std::io::Write;
 
@@ -19,8 +19,16 @@ fn observe(t: &dyn TypeOps, ar: &mut Arena, ar2: &mut Arena, bytes: &[u8], place
     let len = sl.len();
     let r = guarded(|| {
         let p = t.probe(sl);
+        // `FlatWrap::from_wrapped_bytes` over the same bytes accepts exactly what `from_bytes` accepts, with the same error, and
+        // shows the same value
+        let wrap_same = match (&p.res, t.wrap_probe(sl)) {
+            (Ok((v, _, z, _, _)), Ok((wz, wv))) => *z == wz && *v == wv,
+            (Err(a), Err(b)) => *a == b,
+            _ => false,
+        };
+        let wrap_note = if wrap_same { "" } else { " WRAP-DIFF" };
         match p.res {
-            Err(e) => format!("err {}", err_str(&e)),
+            Err(e) => format!("err {}{}", err_str(&e), wrap_note),
             Ok((v, s, z, w, wc)) => {
                 let mut out = format!("ok v={} s={} z={} in={}", v, s, z, if p.range_ok { 1 } else { 0 });
                 if let Some(o) = &p.offsets {
@@ -63,6 +71,7 @@ fn observe(t: &dyn TypeOps, ar: &mut Arena, ar2: &mut Arena, bytes: &[u8], place
                     out += &format!(" ext={}", ext);
                 }
                 out += &format!(" w={}", w);
+                out += wrap_note;
                 out
             }
         }
@@ -204,7 +213,6 @@ pub fn run(reg: &[Box<dyn TypeOps>], cfg: &Cfg, out: &mut dyn Write) {
             let mut x = 0usize;
             while x < 65536 { emit(&mut ar, &mut ar2, &[(x & 255) as u8, (x >> 8) as u8], Place::End, false, None, out); x += step; }
         }
-        let _ = D::Default;
     }
 }
 
